@@ -51,6 +51,63 @@ def check_doc(acc, job, with_key=True):
             acc.violation(Viol('well-formed', sym, dict(case, encoding=enc), 'source grid minus comments/null rows', detail))
 
 
+def same_text_models():
+    """the SAME cell text first in a lyrics / dynamics column and then, after a split / join / early termination has moved the columns, in a kern column with the
+    same column index (and the other way round): what a text means depends on the spine it is in, not on the column or on what was parsed before"""
+    from ..model import Model
+    out = []
+    notes = [('L4c', A.note('4', 'c', '', ['L'], src='L4c')), (';8dd', A.note('8', 'dd', '', [';'], src=';8dd')), ('(4f#', A.note('4', 'f', '#', ['('], src='(4f#')),
+             ("'2e", A.note('2', 'e', '', ["'"], src="'2e")), ('4c', A.note('4', 'c'))]
+    for typ in ('**text', '**dynam', '**harm', '**fing'):
+        for t, nspec in notes:
+            tx = A.text_cell(t, typ)
+            m = Model(['**kern', typ])                      # split: the second kern sub-spine takes the column of the text spine
+            m.add([A.V('*clefG2', 'CLEF'), A.NULL_I])
+            m.add([A.note('4', 'g'), tx])
+            m.add([A.SPLIT, A.NULL_I])
+            m.add([A.note('4', 'a'), nspec, tx])
+            m.add([A.JOIN, A.JOIN, A.NULL_I])
+            m.add([nspec, tx])
+            out.append(m.close())
+            m = Model([typ, '**kern'])                      # early termination: the kern spine moves to column 0
+            m.add([A.NULL_I, A.V('*clefF4', 'CLEF')])
+            m.add([tx, A.note('4', 'g')])
+            m.add([A.TERM, A.NULL_I])
+            m.add([nspec])
+            out.append(m.close())
+            m = Model(['**kern', typ])                      # the other way round: kern text first, then the same text as free text in its column
+            m.add([A.V('*clefG2', 'CLEF'), A.NULL_I])
+            m.add([nspec, A.text_cell('la', typ)])
+            m.add([A.TERM, A.NULL_I])
+            m.add([tx])
+            out.append(m.close())
+    return out
+
+
+def _same_text_job(_seed):
+    acc = Acc()
+    for m in same_text_models():
+        text = m.text()
+        case = {'text': text, 'headers': m.headers, 'seq': ['same-text'], 'seed': 0}
+        acc.count('evaluations')
+        acc.nontriv(digest(text))
+        try:
+            doc, errs = kp.loads(text)
+        except Exception as e:  # noqa
+            acc.violation(Viol('well-formed', 'import-raises', case, 'document', f'{type(e).__name__}: {str(e)[:100]}'))
+            continue
+        if errs:
+            acc.violation(Viol('well-formed', 'import-errors', case, 'no errors', [e.encoding for e in errs][:4]))
+            continue
+        for enc, E in (('ekern', kp.Encoding.eKern), ('kern', None)):
+            out = kp.dumps(doc, encoding=E, spine_types=m.headers) if E else kp.dumps(doc, spine_types=m.headers)
+            acc.count('transitions')
+            acc.count('traces')
+            for sym, detail in compare_export(m, out, enc)[:2]:
+                acc.violation(Viol('well-formed', sym, dict(case, encoding=enc), 'source grid minus comments/null rows', detail))
+    return acc
+
+
 def _repetitive_job(seed):
     acc = Acc()
     for m in D.repetitive_models(seed) + [D.many_distinct_model(seed), D.giant_model(seed), D.distinct_single_model(seed), D.many_signatures_model(seed)] + [D.materialise(j) for j in D.aligned_jobs(seed)]:
@@ -110,12 +167,15 @@ def run(ctx):
         jobs += list(D.deviation_docs([['**kern', '**text']], 3, (ctx.seed,), menu=['d', 'z', 'S0', 'J0', 'g', 'i']))
     jobs += token_skeleton_jobs(ctx.seed)
     longs = D.long_docs(ctx.seed) + D.long_docs(ctx.seed + 4) + D.wide_docs(ctx.seed) + D.wide_docs(ctx.seed + 1) + D.huge_docs(ctx.seed + 1)
+    ctx.pmap(_same_text_job, [0], chunksize=1)
     ctx.pmap(_repetitive_job, [ctx.seed, ctx.seed + 1], chunksize=1)
     ctx.pmap(_job, [[j] for j in longs] + list(X.chunks(jobs, 150)), chunksize=1)
 
 
 def replay(case):
     acc = Acc()
+    if case.get('seq') == ['same-text']:
+        return _same_text_job(0).viol
     if case.get('seq') == ['repetitive']:
         return _repetitive_job(case['seed']).viol
     check_doc(acc, (case['headers'], case['seq'], case['seed']))
